@@ -9,6 +9,7 @@ SPEC = {
             "C16_follows_route", "C16_follows_lpm", "C16_payload_unchanged", "C16_only_destination",
             "C16_delivered", "C16_example_ranked", "C16_example_line_delivers", "C16_example_loop_falls_silent",
             "C16_validate_sound", "C16_example_validate",
+            "C16_only_destination_refuted", "C16_example_validate_polluted",
             "C16_remark_ttl0_panics", "C16_remark_ttl1_dropped", "C16_remark_mtu_panics", "C16_remark_slot_panics",
             "C16_accepts_own_address",
         ],
@@ -18,7 +19,7 @@ SPEC = {
         # every scenario runs the real simulation in a child process; the extracted validator must ACCEPT the
         # recorded trace (all IPv4 frames on all networks + all deliveries to the hosts' applications)
         {"name": "router_traces", "bin": "c16_router", "model": "router", "kind": "validate",
-         "n_quick": 1600, "n_thorough": 40000, "shards": 8, "shards_thorough": 16},
+         "n_quick": 640, "n_thorough": 16000, "shards": 8, "shards_thorough": 16},
     ],
     "rule": "case = one generated internet: line (1-3 routers), star (1 router, 2-4 networks), star of 2-3 routers "
             "round a hub network, ring of 2-3 routers (+ optional stub network); 1-2 hosts per network (<= 6), "
@@ -28,7 +29,7 @@ SPEC = {
             "gateway nobody owns, a local network on the wrong slot, a host with a bad default gateway, and 10% outside "
             "the quantifier (forged TTL 0, MTU smaller than the datagram, slot beyond local_ips / beyond the Pci slots); "
             "1-5 datagrams between random hosts (80% host to host, else unowned address, unknown network, a router's "
-            "address), 60% through Udp/Ipv4 (TTL 30), 40% raw frames with TTL 1,2,3,4,5,8,30,64,255; 0-5 frames "
+            "address), 60% through Udp/Ipv4 (TTL 30), 40% raw frames with TTL 1,2,3,4,5,8,30,64,255 and non-default TOS / identification / DF; 0-5 frames "
             "(ARP or data) delayed by 1-450 ms (reorders arrivals, forces ARP retries); paused current-thread runtime, "
             "a sixth of the loss-free correct scenarios on the 2-thread runtime.  distinct = distinct case line; "
             "trivial = the process died (PANIC) or hung.",
@@ -43,13 +44,16 @@ SPEC = {
         "(feature verif)",
     ],
     "assumptions": [
-        "ARP is the topology: the machine that receives a forwarded frame is the one attached to the outgoing "
-        "network that has the next-hop address among its local IPs; ARP requests/replies/retries, the ARP cache "
-        "(keyed by IP, shared by all slots, negative entries kept for ever) are not modelled - the validator "
-        "checks every observed frame's receiver against this function, so a divergence is a REJECT",
+        "ARP is the topology: a function from (hop number, router, slot, next-hop address) to the machine that gets "
+        "the frame; every theorem holds for ALL such functions.  ARP as it should be = the machine attached to the "
+        "outgoing network that has the address among its local IPs (cfg_topo).  The validator follows the OBSERVED "
+        "receivers (obs_topo), demands the ideal answer where a router stays silent, and reports whether every hop "
+        "was ideal (`ACCEPT` vs `ACCEPT arp-divergent`); the Rust oracle fails on any non-ideal hop.  ARP "
+        "requests/replies/retries and the ARP table (keyed by IP only, shared by all slots, negative entries kept "
+        "for ever) are not modelled",
         "tokio::spawn per packet, task interleaving, timers: not modelled; the validator compares per datagram, "
         "so any interleaving of different datagrams is accepted; silence = no frame during the last 4 s of 14 s "
-        "virtual time (150 ms of 450 ms on the multi-thread runtime)",
+        "virtual time (500 ms of 1500 ms on the multi-thread runtime)",
         "claimed level: proof of the decision logic + trace validation (partial for the running system)",
         "fragments (MF / offset) are outside: every Ipv4::demux creates a fresh reassembly buffer, so a fragment "
         "never reaches ArpRouter::demux",
